@@ -4,6 +4,7 @@ import (
 	"encoding/json"
 	"fmt"
 	"math"
+	"reflect"
 	"runtime/debug"
 	"strconv"
 	"strings"
@@ -660,7 +661,10 @@ func (x *c20run) caseGoUnsupported(seed uint64, uns []c20lab, desc *string) {
 	}
 	x.w = c20wit{Kind: "plant-unsupported", Seed: seed, Label: pick.label, Input: in}
 	want := fmt.Sprintf("%T", pick.v)
-	if !c20contains(g, func(e any) bool { return e != nil && fmt.Sprintf("%T", e) == want }) {
+	// by type identity, not by printed name: a generated registry value (stdlib json.RawMessage, time.Time, ...) prints
+	// like the planted look-alike from verif/internal/collide
+	wantT := reflect.TypeOf(pick.v)
+	if !c20contains(g, func(e any) bool { return e != nil && reflect.TypeOf(e) == wantT }) {
 		x.c.Count("unsupported_plant_overwritten_by_duplicate_key") // nothing to judge
 		return
 	}
